@@ -82,7 +82,7 @@ def run_measure(case):
     kind, norb = case["kind"], case["norb"]
     na, nb = case["nelec"]
     cont = case["container"]
-    t = trials.make(kind, norb, (na, nb), rng, ms_ndets=8)
+    t = trials.make(kind, norb, (na, nb), rng, ms_ndets=8, complex_orbs=bool(kind in ("rhf", "uhf") and (cont == "r" or case["s"] % 2)))
     trial, wd = t["trial"], t["wave_data"]
     h0, h1, chol = trials.rand_ham(rng, norb, 2, spin_dep=False)
     hd = measure.intermediates(t, h0, h1, chol)
@@ -118,6 +118,14 @@ def run_measure(case):
             tol = (1e-5 if (f32 and nm == "energy") else (1e-6 if (fd and nm == "energy") else 1e-11))
             events.append(judge("measure/batch-independent", float(np.max(np.abs(a - b))) / sc, tol, key + "/batch/" + nm, n_batch=n_batch))
             events.append(judge("measure/permutation-equivariant", float(np.max(np.abs(a[p] - c))) / sc, tol, key + "/perm/" + nm, n_batch=n_batch))
+    if cont == "r" and "u" in t["entries"]:
+        # storage format of the SAME walkers: the array container and the list container with equal spin blocks (dn = leading n_dn columns)
+        lst = [jnp.array(up), jnp.array(up[:, :, :nb])]
+        as_list = (np.asarray(trial.calc_overlap(lst, wd)), np.asarray(trial.calc_force_bias(lst, hd, wd)), np.asarray(trial.calc_energy(lst, hd, wd)))
+        for nm, a, b in zip(names, ref, as_list):
+            sc = max(1e-300, float(np.max(np.abs(a))))
+            tol = (1e-5 if (f32 and nm == "energy") else (1e-6 if (fd and nm == "energy") else 1e-10))
+            events.append(judge("measure/array-container-equals-list-container", float(np.max(np.abs(a - b))) / sc, tol, key + "/container/" + nm))
     return {"events": events, "nontrivial": True, "sample": {"kind": kind, "container": cont, "perm": p.tolist()}, "counters": {"measure_cases": 1}}
 
 
